@@ -133,6 +133,62 @@ def load_findings(prop):
     return {f['component']: f for f in vlib.known_findings(prop)}
 
 
+def strategy_prefix(res, tier, rng, replay):
+    """strategies (base, compound, decorated): a run on the first m snapshots gives the first m actions of the full run, and
+    rewriting the snapshots from m on leaves the first m actions unchanged (Go vs Go, exact)"""
+    import c_strategies as cs
+    if replay:
+        rp = json.load(open(replay))
+        if 'strategy_case' not in rp:
+            return 0, 0
+        c = rp['strategy_case']
+        cases = [(c['name'], c['ns'], c['fs'], c['ohlcv'], 'replay')]
+    else:
+        cases = [c for c in cs.gen_strat_cases(rng, tier, per=(6 if tier == 'quick' else 40)) if len(c[3]['c']) > cs.strat_idle(c[0], c[1]) + 3]
+        for wname in cs.WRAPPED:
+            for _ in range(3 if tier == 'quick' else 15):
+                o, regime = gen_ohlcv(rng, rng.randrange(14, 90))
+                cases.append((wname, [], [], o, regime))
+    lines, meta = [], []
+    for i, c in enumerate(cases):
+        name, ns, fs, o, regime = c
+        n = len(o['c'])
+        w = cs.strat_idle(name, ns) if ':' not in name else 6
+        if n <= w + 1:
+            continue
+        lines.append('f%d %s' % (i, cs.strat_line(name, ns, fs, o)))
+        for j in range(2):
+            m = rng.randrange(w + 1, n) if rng.random() < 0.7 else n - 1
+            po = {k: o[k][:m] for k in o}
+            lines.append('f%d_p%d %s' % (i, j, cs.strat_line(name, ns, fs, po)))
+            o2, _ = gen_ohlcv(rng, n)
+            so = {k: o[k][:m] + o2[k][m:] for k in o}
+            lines.append('f%d_s%d %s' % (i, j, cs.strat_line(name, ns, fs, so)))
+            meta.append((i, j, m))
+    go = vlib.run_go(lines)
+    bad = 0
+    for (i, j, m) in meta:
+        full = go.get('f%d' % i, 'missing')
+        if not full.startswith('ok'):
+            continue
+        fa = full.split(' | ')[1].split(',')
+        for kind in ('p', 's'):
+            g = go.get('f%d_%s%d' % (i, kind, j), 'missing')
+            if not g.startswith('ok'):
+                continue
+            ga = g.split(' | ')[1].split(',')
+            if ga[:m] != fa[:m]:
+                bad += 1
+                if bad <= 8:
+                    k = next((t for t in range(m) if t >= len(ga) or t >= len(fa) or ga[t] != fa[t]), 0)
+                    name, ns, fs, o, regime = cases[i]
+                    res.violation({'strategy_case': {'name': name, 'ns': ns, 'fs': fs, 'ohlcv': o}, 'cut': m,
+                                   'relation': 'run on the first m snapshots' if kind == 'p' else 'snapshots rewritten from m on',
+                                   'first_difference': {'index': k, 'full_run': fa[k] if k < len(fa) else None, 'derived_run': ga[k] if k < len(ga) else None},
+                                   'oracle': 'the first m actions depend on the first m snapshots only'})
+    return bad, len(lines)
+
+
 def strategy_scaling(res, tier, rng, replay):
     """every strategy's action stream is unchanged when all prices (or all volumes) are multiplied by a power of two"""
     import c_strategies as cs
@@ -453,6 +509,11 @@ def check_c04(res, tier, replay):
         names = sorted(LAST_MISMATCH_COMPONENTS)
         stats['focused_search'] = names
         c04_pass(res, rng, tier, gen_cases(rng, tier, names=names, per=80), stats, report_corr=False)
+    # ---- strategies: the recommendation for snapshot i never depends on later snapshots
+    sb, sr = strategy_prefix(res, tier, rng, replay)
+    stats['bad'] += sb
+    stats['evaluations'] += sr
+    stats['strategy_runs'] = sr
     res.samples = stats['samples']
     res.coverage.update({
         'evaluations': stats['evaluations'], 'distinct_nontrivial': len(stats['cells']),
